@@ -578,6 +578,58 @@ def acknowledgement_numbers(ctx, repo, rule):
                sample={"rule": rule, "stack": stack, "acknowledgements": [repr(g) for g in got] if isinstance(got, list) else got})
 
 
+def wire_carries_the_drawn_number(ctx, repo, rule):
+    from ..absint import Interp, PyRaise, Undecided
+    from ..symbytes import SymBytes
+    from . import c04
+    interp = Interp(repo, max_depth=10)
+    n_b = 0
+    for cname, builder, args, _expect, desc in c04.message_table():
+        try:
+            fields = c04._fields_in(args, {})
+        except Undecided:
+            continue
+        if "seq" not in fields:
+            continue
+        bfi = repo.method(cname, builder, required=False)
+        if bfi is None:
+            continue
+        base = {n: (0x21 + 13 * i) & ((1 << b) - 1) for i, (n, b) in enumerate(sorted(fields.items()))}
+        wires = {}
+        bad = None
+        for s_ in range(1, 256):
+            try:
+                msg = c04.build_message(repo, interp, cname, builder, c04._subst(args, dict(base, seq=s_)))
+                w = c04.wire_of(msg, interp)
+                w = SymBytes.of(w).concrete() if w is not None else None
+            except PyRaise as e:
+                bad = bad or (s_, f"raises {e.what}")
+                continue
+            except Undecided as e:
+                raise AnalysisError(f"{cname}.{builder}[{desc}] with sequence number {s_}: {e}")
+            if w is None:
+                raise AnalysisError(f"{cname}.{builder}[{desc}] with sequence number {s_}: no concrete content")
+            wires[s_] = bytes(w)
+        n_b += 1
+        if bad is None and len(wires) >= 2:
+            w1, w2 = wires[1], wires[2]
+            pos = [i for i in range(min(len(w1), len(w2))) if w1[i] != w2[i]]
+            if len(w1) != len(w2) or len(pos) != 1 or w1[pos[0]] != 1 or w2[pos[0]] != 2:
+                bad = (2, f"{w2!r} against {w1!r} for number 1: the number is not one byte of the message")
+            else:
+                p_ = pos[0]
+                for s_, w in sorted(wires.items()):
+                    if not (len(w) == len(w1) and w[p_] == s_ and w[:p_] == w1[:p_] and w[p_ + 1:] == w1[p_ + 1:]):
+                        bad = (s_, f"{w!r}: byte {p_} (the sequence position) is {w[p_] if len(w) > p_ else None}, message length {len(w)} against {len(w1)}")
+                        break
+        ctx.ob(rule, f"{cname}.{builder}[{desc}]::number-on-the-wire", bad is None,
+               f"{desc}: {cname}.{builder} with sequence number {bad[0] if bad else ''} gives {bad[1] if bad else ''} - the number handed out by the counter is not the number the peer reads "
+               f"(a protocol-range number appears in the command range, distinct numbers collapse onto one value)", bfi.loc,
+               sample={"rule": rule, "message": desc, "numbers": len(wires)})
+    ctx.count(f"{rule}:builders swept over every sequence number", n_b)
+    ctx.floor(rule, "builders swept over every sequence number", n_b, 9)
+
+
 def check(ctx):
     repo = Repo()
     ctx.exhaustive = True
@@ -588,6 +640,8 @@ def check(ctx):
     ctx.rule("R5", "both implementations identical modulo the lock")
     ctx.rule("R6", "what a retransmission puts on the wire is the number that was handed out: the content of every pending request is unchanged by any message its handler accepts (interpreted: build, handle, read content again)")
     retransmission_carries_the_drawn_number(ctx, repo, "R6")
+    ctx.rule("R8", "the wire carries the number drawn, for EVERY number: each request builder that takes a sequence number, interpreted with every number 1..255 (its other fields fixed), puts exactly that number into one fixed byte of an otherwise unchanged message - a number encoded some other way (as text: two bytes from 128 on) shows up in another range and collapses distinct numbers onto one wire value")
+    wire_carries_the_drawn_number(ctx, repo, "R8")
     ctx.rule("R7", "acknowledgements draw too: the STATQ that answers an unsolicited partial update carries a freshly drawn protocol number on both stacks (connection and handler built by their constructors, three updates -> 1, 2, 3)")
     acknowledgement_numbers(ctx, repo, "R7")
     results = []
